@@ -8,6 +8,8 @@ CONSTANTS
   InitBank = "3"
   MaxLen = 3
   Defects = {"dao_self_transfer"}
+  Foreign = {}
+  BankAmts = {}
 INVARIANT MInv_Strict
 VIEW View
 CHECK_DEADLOCK FALSE
